@@ -109,12 +109,16 @@ type c11Unit struct {
 	svc      *srv.Service
 	accepted atomic.Bool
 	addRet   atomic.Int64
+	slow     bool
 }
 
 func (u *c11Unit) body(ctx context.Context, release <-chan struct{}) error {
 	u.runs.Add(1)
 	u.started.Store(kit.Stamp())
 	defer func() { u.ended.Store(kit.Stamp()) }()
+	if u.slow {
+		kit.Yields(60)
+	}
 	switch u.Outcome {
 	case "block":
 		<-ctx.Done()
@@ -165,10 +169,17 @@ func c11Orchestrator(r *kit.Run, idx int64, rng *rand.Rand) {
 	parent, cancelParent := context.WithCancel(context.Background())
 	defer cancelParent()
 	release := make(chan struct{}) // externally started services end when this is closed
+	// immediate: the orchestrator is shut down right after the last Add
+	// returned, while accepted services may still be queued
+	immediate := rng.IntN(3) == 0
+	endMode := []string{"close", "parent-cancel"}[rng.IntN(2)]
 	var units []*c11Unit
 	for i := 0; i < n; i++ {
 		u := &c11Unit{ID: i, Outcome: []string{"ok", "error", "panic", "block", "ok", "error"}[rng.IntN(6)], State: []string{"fresh", "fresh", "fresh", "running", "finished", "racing", "racing"}[rng.IntN(7)], When: []string{"before", "after"}[rng.IntN(2)]}
 		u.err = fmt.Errorf("service %d failed", i)
+		if immediate && (u.State == "running" || u.State == "racing") {
+			u.State = "finished" // externally owned services have ended before the shutdown (DESIGN 7f)
+		}
 		if u.State != "fresh" && u.Outcome == "block" {
 			u.Outcome = "ok" // an externally owned service ends on its own (DESIGN 7f)
 		}
@@ -181,7 +192,7 @@ func c11Orchestrator(r *kit.Run, idx int64, rng *rand.Rand) {
 		units = append(units, u)
 	}
 	desc := func() map[string]any {
-		return map[string]any{"mode": "orchestrator", "services": unitsDesc(units), "adders": adders, "gomaxprocs": procs}
+		return map[string]any{"mode": "orchestrator", "services": unitsDesc(units), "adders": adders, "gomaxprocs": procs, "shutdown_immediately_after_last_add": immediate, "end": endMode}
 	}
 	r.Eval()
 	r.Current(idx, fmt.Sprintf("C11 orch n=%d", n))
@@ -255,7 +266,9 @@ func c11Orchestrator(r *kit.Run, idx int64, rng *rand.Rand) {
 			return true
 		}
 		racers.Wait()
-		if !kit.WaitUntil(c11Watchdog/4, allStarted) {
+		if immediate {
+			// no waiting: whatever was accepted must still be handled
+		} else if !kit.WaitUntil(c11Watchdog/4, allStarted) {
 			if cs, q := kit.Quiesce(c11Watchdog); q && !allStarted() {
 				var missing []int
 				for _, u := range units {
@@ -280,10 +293,14 @@ func c11Orchestrator(r *kit.Run, idx int64, rng *rand.Rand) {
 				}
 			}
 		}
-		if rng.IntN(2) == 0 {
+		if !immediate && rng.IntN(2) == 0 {
 			kit.Quiesce(c11Watchdog)
 		}
-		or.Service().Close()
+		if endMode == "close" {
+			or.Service().Close()
+		} else {
+			cancelParent()
+		}
 		wd := make(chan struct{})
 		go func() { waitErr = or.Wait(); waitStamp = kit.Stamp(); close(wd) }()
 		if !kit.WaitUntil(c11Watchdog/2, func() bool { return isClosed(wd) }) {
@@ -306,6 +323,13 @@ func c11Orchestrator(r *kit.Run, idx int64, rng *rand.Rand) {
 		return
 	}
 	for _, u := range units {
+		if immediate && u.State == "fresh" && u.runs.Load() == 0 {
+			// accepted, but the orchestrator was being shut down: "started at
+			// most once" allows zero; observed, not judged (its failure cannot
+			// be missing from Wait because it never ran)
+			r.Count("fresh_services_not_started_after_immediate_shutdown", 1)
+			continue
+		}
 		if u.runs.Load() > 1 {
 			viol("started-twice", fmt.Sprintf("service %d was run %d times", u.ID, u.runs.Load()))
 			return
@@ -643,6 +667,12 @@ func c11Cleanup(r *kit.Run, idx int64, rng *rand.Rand) {
 	problem, kind, inconclusive := "", "", ""
 	var waitErr error
 	var endStamp int64
+	var lateProblem atomic.Value
+	lateYields := []int{rng.IntN(50), rng.IntN(400), rng.IntN(3000)}
+	slowJobs := rng.IntN(2) == 0
+	for _, u := range units {
+		u.slow = slowJobs
+	}
 	parent, cancelParent := context.WithCancel(context.Background())
 	defer cancelParent()
 	kit.WithProcs(procs, func() {
@@ -679,6 +709,25 @@ func c11Cleanup(r *kit.Run, idx int64, rng *rand.Rand) {
 		}
 		wd := make(chan struct{})
 		go func() { waitErr = c.Wait(); close(wd) }()
+		// late waiters: a Wait that is issued while the shutdown is under way
+		// must not return before every accepted function has run
+		var lw sync.WaitGroup
+		for k := 0; k < 3; k++ {
+			lw.Add(1)
+			go func(k int) {
+				defer lw.Done()
+				kit.Yields(lateYields[k])
+				_ = c.Wait()
+				t := kit.Stamp()
+				for _, u := range units {
+					if u.accepted.Load() && (u.ended.Load() == 0 || u.ended.Load() > t) {
+						lateProblem.Store(fmt.Sprintf("a Wait issued during the shutdown returned (stamp %d) before cleanup function %d had run (ended %d)", t, u.ID, u.ended.Load()))
+						return
+					}
+				}
+			}(k)
+		}
+		defer lw.Wait()
 		if !kit.WaitUntil(c11Watchdog/2, func() bool { return isClosed(wd) }) {
 			if cs, q := kit.Quiesce(c11Watchdog); q {
 				kind, problem = "wait-never-returns", fmt.Sprintf("Cleanup service Wait does not return after %s; %v", endMode, cs.Describe())
@@ -697,6 +746,10 @@ func c11Cleanup(r *kit.Run, idx int64, rng *rand.Rand) {
 	viol := func(k, d string) { r.Violation("C11/Cleanup/"+k, idx, desc(), d, nil) }
 	if problem != "" {
 		viol(kind, problem)
+		return
+	}
+	if lp := lateProblem.Load(); lp != nil {
+		viol("wait-returned-during-cleanup", lp.(string))
 		return
 	}
 	for _, u := range units {
